@@ -903,6 +903,31 @@ def _check_delta(case, stats):
         if msg is not None:
             raise Violation("delta-subtract", "(Delta - g) at the point / reduced over the Delta's variable differs from ld - g(v=x): " + msg)
         stats["identities"] += 2
+    # (f8) a Delta on the left of a Delta whose point depends on the first one's variable:
+    #      reducing over v evaluates the second Delta's point at v = x
+    if not intpoint and not vector:
+        try:
+            uvar = funsor.Variable("u", funsor.Real)
+            dep = Delta("u", v * 2.0 + 1.0, funsor.Number(0.0))
+            both = d + dep
+            red = both.reduce(ops.logaddexp, "v")
+            if "v" in red.inputs:
+                raise Violation("delta-reduce", "(Delta(v, x) + Delta(u, 2v+1)).reduce(logaddexp, v) still has the input v: %s" % (sorted(red.inputs),))
+            at = x * 2.0 + 1.0
+            lhs_at, lhs_off = red(u=at), red(u=at + 0.5)
+            if wsub:
+                lhs_at, lhs_off = lhs_at(**wsub), lhs_off(**wsub)
+            msg = oracle.compare(funsor.reinterpret(ld if not wsub else ld), funsor.reinterpret(lhs_at))
+            if msg is None:
+                axes, vals = oracle.denote(funsor.reinterpret(lhs_off))
+                if not np.all(np.asarray(vals) == -np.inf):
+                    msg = "away from 2x+1 the reduced term is %r, not -inf" % (np.asarray(vals).ravel()[:4].tolist(),)
+        except (oracle.Declined, ValueError, NotImplementedError, AssertionError, TypeError):
+            stats["declined"] += 1
+            msg = None
+        if msg is not None:
+            raise Violation("delta-reduce", "(Delta(v, x) + Delta(u, 2v+1)).reduce(logaddexp, v) is not a point mass at u = 2x+1: " + msg)
+        stats["identities"] += 1
     # (f5), (f6): a joint Delta over two names, reduced / integrated over ONE of them: the other
     # name stays a point mass (value at its point, nothing elsewhere)
     if case.get("joint") and not intpoint and not vector:
